@@ -1432,17 +1432,18 @@ theorem reference_spec (ds1 w1 ds2 w2 ctx : Bytes)
       (.ok ⟨(digitsVal ds2 0 : Int), ds1.length + w1.length, ds1.length + w1.length + ds2.length⟩,
         ds1.length + w1.length + ds2.length) := by
     have := int_at (ds1 ++ w1) ds2 t3 h2ne h2 (fun y hy => (wsRun_head_not w2 t4 hw2 hw2ne y hy).1) f2
-    simpa [List.append_assoc, t1, t2] using this
+    simpa [List.append_assoc, t1, t2, Nat.add_assoc] using this
   have a3 : ∀ e, wsEOL e (ds1 ++ t1) (ds1.length + w1.length + ds2.length) =
       (.ok ⟨(), ds1.length + w1.length + ds2.length, ds1.length + w1.length + ds2.length + w2.length⟩,
         ds1.length + w1.length + ds2.length + w2.length) := by
     intro e
     have := ws_at e (ds1 ++ w1 ++ ds2) w2 t4 hw2 hR (Or.inl hw2ne)
-    simpa [List.append_assoc, t1, t2, t3] using this
+    simpa [List.append_assoc, t1, t2, t3, Nat.add_assoc] using this
   have hdrop : (ds1 ++ t1).drop (ds1.length + w1.length + ds2.length + w2.length) = t4 := by
     have : ds1 ++ t1 = (ds1 ++ w1 ++ ds2 ++ w2) ++ t4 := by simp [t1, t2, t3, List.append_assoc]
     rw [this]
-    have hl : ds1.length + w1.length + ds2.length + w2.length = (ds1 ++ w1 ++ ds2 ++ w2).length := by simp
+    have hl : ds1.length + w1.length + ds2.length + w2.length = (ds1 ++ w1 ++ ds2 ++ w2).length := by
+      simp [Nat.add_assoc]
     rw [hl, List.drop_left]
   have a4 : startsWith [82] (ds1 ++ t1) (ds1.length + w1.length + ds2.length + w2.length) = true := by
     unfold startsWith; rw [hdrop]; simp [t4, List.isPrefixOf]
@@ -1470,3 +1471,35 @@ theorem reference_spec (ds1 w1 ds2 w2 ctx : Bytes)
   unfold referenceP
   simp only [b1, isUsize, a1', a2, a3 true, hex]
   simp
+
+/-- the dispatcher reaches the number branch on any byte that starts a number -/
+theorem parseInternal_number (el : Elem) (cur : Nat) (s : Bytes) (c0 : UInt8) (hp : peek s 0 = some c0)
+    (hcls : isDigit c0 = true ∨ c0 = 45 ∨ c0 = 43 ∨ c0 = 46) :
+    parseInternal el cur s 0 = (numberOrRef s 0, cur) := by
+  obtain ⟨d1, d2, d3, d4, d5, d6, d7, d8, -, -⟩ := number_first_byte c0 hcls
+  unfold parseInternal
+  simp only [hp, d1, d2, d3, d4, d5, d6, d7, d8, Bool.false_eq_true, if_false]
+
+/-- **`spell_parse_ref`**: `n ws⁺ g ws⁺ R` (any non-empty whitespace/comment runs, leading zeros
+    allowed), after any whitespace run, before the end of the buffer or a non-regular byte. -/
+theorem spell_parse_ref (c : Depth) (hc : c.cur < c.max) (lead : Bytes) (hlead : WsRun lead)
+    (ds1 w1 ds2 w2 ctx : Bytes)
+    (h1ne : ds1 ≠ []) (h1 : ∀ y ∈ ds1, isDigit y = true) (f1 : digitsVal ds1 0 ≤ i64Max)
+    (h2ne : ds2 ≠ []) (h2 : ∀ y ∈ ds2, isDigit y = true) (f2 : digitsVal ds2 0 ≤ i64Max)
+    (hw1 : WsRun w1) (hw1ne : w1 ≠ []) (hw2 : WsRun w2) (hw2ne : w2 ≠ [])
+    (hctx : ∀ y, ctx.head? = some y → isRegular y = false) :
+    parseObj c (lead ++ (ds1 ++ (w1 ++ (ds2 ++ (w2 ++ (82 :: ctx)))))) 0 =
+      ((.ok ⟨.ref (digitsVal ds1 0) (digitsVal ds2 0), lead.length,
+          lead.length + (ds1.length + w1.length + ds2.length + w2.length + 1)⟩,
+        lead.length + (ds1.length + w1.length + ds2.length + w2.length + 1)), c) := by
+  obtain ⟨d, t, hd⟩ : ∃ d t, ds1 = d :: t := by
+    cases ds1 with
+    | nil => exact absurd rfl h1ne
+    | cons d t => exact ⟨d, t, rfl⟩
+  have hdd : isDigit d = true := h1 d (by rw [hd]; exact List.mem_cons_self)
+  apply parseObj_token c hc lead _ hlead
+  · intro y hy
+    rw [hd] at hy; simp at hy; subst hy
+    exact digit_not_ws _ hdd
+  · rw [parseInternal_number _ _ _ d (by rw [hd]; rfl) (Or.inl hdd)]
+    rw [reference_spec ds1 w1 ds2 w2 ctx h1ne h1 f1 h2ne h2 f2 hw1 hw1ne hw2 hw2ne hctx]
